@@ -147,6 +147,9 @@ func (s *Share[E]) ToAdditive(to *unanimity.Unanimity) (*additive.Share[E], erro
 	if !to.Shareholders().Contains(s.id) {
 		return nil, sharing.ErrMembership.WithMessage("share ID %d is not in access structure", s.id)
 	}
+	if len(s.v) == 0 {
+		return nil, sharing.ErrFailed.WithMessage("share ID %d holds no piece: it lies in every maximal unqualified set", s.id)
+	}
 	group := algebra.StructureMustBeAs[algebra.Group[E]](slices.Collect(maps.Values(s.v))[0].Structure())
 	shareValue := group.OpIdentity()
 	for maxUnqualifiedSet, additiveShare := range s.v {
